@@ -3,7 +3,7 @@
    state never index out of range, for every sequence of operations and every
    writer; the output of a show inside a URL attribute is confined.
    Only statements, `exact`, and Print Assumptions live here. *)
-From Verif Require Import Bytes Facts_render RendererM Renderer_proofs.
+From Verif Require Import Bytes Facts_render RendererM Renderer_proofs RunLoopM RunLoop_proofs.
 Open Scope N_scope.
 
 (* Renderer part of the statement: for every writer (any pattern of failing
@@ -73,3 +73,55 @@ Theorem encoded_contexts_known_holds :
      | (ctx, u, s, c) => negb (ctx <=? gen_ContextSpacesCodeBlock) || op_ok (OShow c (mkShown [] None None))
      end) gen_encodeRenderContext = true.
 Proof. exact encoded_ctx_known. Qed.
+
+(* ---------------------------------------------------------------- part 2: the run loop *)
+
+(* Full statement of the outcome algebra: for every stream of instruction
+   results, Run returns nil, a PanicError, the error of the output, the
+   context error, the Stop error (or the error of a go statement), or panics
+   with the message of a fatalError -- never with a Go runtime error of its
+   own.  The raw panics are classified by the generated rules of convertPanic
+   (the fault table). *)
+Definition C05_run_outcome_statement : Prop :=
+  forall has_ctx done_at_end segs, ends segs = true ->
+  acceptable (vm_run has_ctx done_at_end segs) = true.
+
+(* proved under the hypothesis that no deferred native call panics while a
+   panic unwinds (vm.fn == nil), env.Stop excepted *)
+Theorem run_outcome_partial : forall has_ctx done_at_end segs,
+  forallb seg_ok segs = true -> ends segs = true ->
+  acceptable (vm_run has_ctx done_at_end segs) = true.
+Proof. exact run_outcome. Qed.
+Print Assumptions run_outcome_partial.
+
+Theorem run_outcome_classes_holds : forall has_ctx done_at_end segs,
+  forallb seg_ok segs = true -> ends segs = true ->
+  match vm_run has_ctx done_at_end segs with
+  | RRCtx => has_ctx = true
+  | RRHostPanicGo | RRStuck => False
+  | _ => True
+  end.
+Proof. exact run_outcome_classes. Qed.
+
+(* the full statement is refuted by the faithful model: a panic, then a
+   deferred native function that panics (recorded finding, replayed by the sweep) *)
+Theorem run_outcome_refuted :
+  exists has_ctx done_at_end segs, ends segs = true /\ acceptable (vm_run has_ctx done_at_end segs) = false.
+Proof.
+  exists false, false,
+    [SgRaise false gen_OpPanic false (mkP KOther [] 0) 1;
+     SgRaise true gen_OpCallNative true (mkP KString [110] 0) 0].
+  split; [reflexivity|]. rewrite unwinding_native_panic_refutes. reflexivity.
+Qed.
+
+(* entries of the fault table evaluated in the model *)
+Example run_outcome_examples :
+  vm_run false false [SgRaise false gen_OpDivInt false (mkP KGoRuntime msg_divzero 0) 0] = RRPanicError /\
+  vm_run false false [SgRaise false gen_OpCallNative true (mkP KGoRuntime msg_divzero 0) 0] = RRHostPanicFatal true /\
+  vm_run false false [SgRaise false gen_OpCallNative true (mkP KFatal [] 0) 0] = RRHostPanicFatal false /\
+  vm_run false false [SgRaise false gen_OpText false (mkP KOut [] 7) 0] = RROutError 7 /\
+  vm_run false false [SgRaise false gen_OpCallNative true (mkP KStop [] 9) 3] = RRStop 9 /\
+  vm_run false false [SgRaise false gen_OpAdd false (mkP KGoRuntime msg_divzero 0) 0] = RRHostPanicFatal true /\
+  vm_run true true [SgReturn 0] = RRCtx /\
+  vm_run false false [SgRaise false gen_OpPanic false (mkP KOther [] 0) 2; SgReturn 1] = RRNil.
+Proof. exact table_examples. Qed.
